@@ -307,3 +307,24 @@ prop(
     ],
     assumptions=["timeToBucketID is an arbitrary function of the time (uninterpreted)", "the dynamic type behind the buckets interface honours the simpleBuckets contracts"],
 )
+
+prop(
+    "C19",
+    level="other",
+    design_ref="DESIGN.md section 3, C19",
+    groups=[(["./pipeline"], r"^\(\*Batch\)\.ForEach$"),
+            (["./plugin/output/elasticsearch"], r"^\(\*Plugin\)\.(sendSplit|appendIndexName|Start|Start\$1)$")],
+    known_canaries=[("./plugin/output/elasticsearch", "replay/C19/zz_replay_c19_test.go", "TestVerifReplayC19IndexName")],
+    claim=(
+        "Proved: Batch.ForEach calls the callback for exactly the non-parent events, in index order (per-iteration obligation); Elasticsearch sendSplit, for every pattern of failing / 413 / successful requests (DoTimeout is an arbitrary environment), "
+        "sends contiguous ranges data[begin[l]:begin[r]] so that on success the accepted prefix advances exactly from begin[left] to begin[right] - the resent parts tile the batch exactly once - and a single event that is still too large returns the error (recursive calls use the contract); "
+        "the ES error callback forwards each event of a failed batch to Router.Fail exactly once in order, and the retry loop's dead-queue flag and retry count are the router's / the configured ones. "
+        "KNOWN FINDING (open): appendIndexName splices the event's index field value into the action line unescaped."
+    ),
+    undecided=[
+        "document bodies (event.Encode), file / http / splunk / loki / gelf envelopes: insane-json encoder (third-party), not applicable to contracts on file.d code",
+        "out(): begin has one entry per delivered event (closure called through ForEach across packages) and the Kafka record slicing of the shared buffer - not yet under contract",
+        "termination of sendSplit's recursion (decreases right-left) is not checked",
+    ],
+    assumptions=["xhttp.Client.DoTimeout does not touch the plugin's buffers (pure) and accepts the whole body iff it returns nil"],
+)
